@@ -177,17 +177,21 @@ fn real_main() {
                 }
                 let cs = b2s(&mut pr, claim);
                 body.push_str(&format!("(assert (not {}))\n", cs));
+                let eq_terms = match claim {
+                    B::Eq(l, r) => format!("[\"{}\",\"{}\"]", esc(&pr.term(*l)), esc(&pr.term(*r))),
+                    _ => "null".to_string(),
+                };
                 let err = pr.error.clone();
                 let syms = pr.var_symbols();
                 let (smt, names) = pr.finish(&body, case.no_ties && theory == Th::Real, fp_bound);
                 let vars: Vec<String> = names.iter().zip(syms.iter()).map(|(n, s)| format!("[\"{}\",\"{}\"]", esc(n), s)).collect();
                 writeln!(
                     out,
-                    "{{\"case\":\"{}\",\"property\":\"{}\",\"family\":\"{}\",\"class\":\"{}\",\"path\":{},\"role\":\"{}\",\"kind\":\"{}\",\"theory\":\"{}\",\"trivial\":{},\"no_ties\":{},\"detail\":\"{}\",\"encode_error\":{},\"vars\":[{}],\"smt\":\"{}\"}}",
+                    "{{\"case\":\"{}\",\"property\":\"{}\",\"family\":\"{}\",\"class\":\"{}\",\"path\":{},\"role\":\"{}\",\"kind\":\"{}\",\"theory\":\"{}\",\"trivial\":{},\"no_ties\":{},\"detail\":\"{}\",\"encode_error\":{},\"eq_terms\":{},\"vars\":[{}],\"smt\":\"{}\"}}",
                     esc(&case.id), case.property, esc(case.family), esc(&case.class), pi, esc(role), kind,
                     if theory == Th::Fp { "fp" } else { "real" }, trivial(claim), case.no_ties, esc(detail),
                     match err { Some(e) => format!("\"{}\"", esc(&e)), None => "null".into() },
-                    vars.join(","), esc(&smt)
+                    eq_terms, vars.join(","), esc(&smt)
                 ).unwrap();
             };
             for o in ctx.obls.iter() {
